@@ -571,6 +571,61 @@ func TestVerif_C13_Tbtc(t *testing.T) {
 	}
 	r.Count("gate_submitted", gateSubmitted)
 	r.Count("gate_refused", gateRefused)
+	// A'. the same gate for wallets whose signing group is smaller than the
+	// nominal group size (members excluded during key generation are not part
+	// of the wallet): the honest threshold is the group parameter, not a value
+	// derived from the number of members the wallet happens to have
+	var reducedSubmitted, reducedRefused int64
+	for _, p := range []params{{3, 2, 2}, {5, 4, 3}, {10, 8, 6}, {100, 90, 51}} {
+		gp := &GroupParameters{GroupSize: p.n, GroupQuorum: p.q, HonestThreshold: p.h}
+		for _, missing := range []int{1, p.n - p.q} {
+			m := p.n - missing
+			if missing <= 0 || m < p.h-2 {
+				continue
+			}
+			members := make([]uint32, m)
+			for i := range members {
+				members[i] = uint32(i + 1)
+			}
+			for _, k := range []int{p.h - 2, p.h - 1, p.h, p.h + 1, m} {
+				if k < 0 || k > m {
+					continue
+				}
+				perm := gateRng.Perm(m)
+				sigs := map[group.MemberIndex][]byte{}
+				for _, x := range perm[:k] {
+					sigs[group.MemberIndex(x+1)] = []byte(fmt.Sprintf("signature-%d", x+1))
+				}
+				submitterIdx := group.MemberIndex(1 + gateRng.Intn(m))
+				desc := fmt.Sprintf("gate step=claim reduced-wallet n=%d quorum=%d honest=%d wallet-members=%d size=%d submitter=%d", p.n, p.q, p.h, m, k, submitterIdx)
+				cw := &c13Chain{localChain: chains[0]}
+				var serr error
+				if r.Guard("tbtc:gate:claim-reduced:", desc, func() {
+					sub := newInactivityClaimSubmitter(logger, cw, gp, members, c13Now)
+					claim := inactivity.NewClaimPreimage(big.NewInt(0), share.PublicKey(), []group.MemberIndex{2}, true)
+					serr = sub.SubmitClaim(context.Background(), submitterIdx, claim, sigs)
+				}) {
+					continue
+				}
+				nSubmitted := len(cw.claimSubmitted)
+				r.Case(desc, k >= p.h-1 && k <= p.h+1)
+				wit := map[string]interface{}{"size": k, "threshold": p.h, "wallet_members": m, "submissions": nSubmitted, "error": fmt.Sprint(serr)}
+				switch {
+				case nSubmitted > 0 && k < p.h:
+					r.Violation("tbtc:claim:reduced-wallet:submitted-below-threshold", fmt.Sprintf("claim of a %d-member wallet submitted with %d signatures, honest threshold %d", m, k, p.h), desc, wit)
+				case nSubmitted == 0 && k >= p.h:
+					r.Violation("tbtc:claim:reduced-wallet:not-submitted-at-threshold", fmt.Sprintf("%d signatures >= threshold %d but nothing submitted", k, p.h), desc, wit)
+				}
+				if nSubmitted > 0 {
+					reducedSubmitted++
+				} else {
+					reducedRefused++
+				}
+			}
+		}
+	}
+	r.Count("gate_reduced_wallet_submitted", reducedSubmitted)
+	r.Count("gate_reduced_wallet_refused", reducedRefused)
 
 	// ------------------------------------------------------- B. end to end
 	sizes := []int{3, 5, 10}
